@@ -79,10 +79,10 @@ Section Unitaries.
     transpose_c d (map (kron_struct us) (transpose_c d m)).
   Definition conj_transpose (m : list (list cx)) : list (list cx) :=
     map (map (cconj O)) (transpose_c (length m) m).
-  (* rotate_rho: rho_r = K(rho); rho_r = K(conjugate(rho_r)) *)
+  (* rotate_rho: rho_r = K(rho); rho_r = conjugate(K(conjugate(rho_r)))   (fix 209e65c: the outer conjugate) *)
   Definition rotate_rho (user : list umat) (basis : list letter) (rho : list (list cx)) : list (list cx) :=
     let us := map (lookup user) basis in
-    kron_rows us (conj_transpose (kron_rows us rho)).
+    conj_transpose (kron_rows us (conj_transpose (kron_rows us rho))).
 
   (* ---- _rotate_basis_state: expand a measured outcome over the rotated (non-Z) sites ---- *)
   (* all configurations v that agree with [state] on Z sites, in the order of
